@@ -32,6 +32,8 @@ type c20FreeCase struct {
 	Writes   int    `json:"writes"`
 	UpdC     []bool `json:"updC"` // request flags of the client's UpdateKeys calls
 	UpdS     []bool `json:"updS"`
+	LateC    int    `json:"lateC"`   // milliseconds the client waits before its first UpdateKeys (asymmetric histories: the peer has
+	LateS    int    `json:"lateS"`   // already updated several times when this side updates for the first time)
 	Callers  int    `json:"callers"` // goroutines per side sharing the update list
 	Craft    string `json:"craft"`   // "", "c" or "s": inject a record under that side's next generation
 	Suite    string `json:"suite"`
@@ -201,6 +203,9 @@ func runC20Free(cc *c20FreeCase, keep bool) c20FreeResult { //nolint:cyclop,goco
 			go func(p *labPeer, upd []bool, seed int64) {
 				defer wg.Done()
 				lr := rand.New(rand.NewSource(seed)) //nolint:gosec
+				if late := map[string]int{"c": cc.LateC, "s": cc.LateS}[p.name]; late > 0 {
+					time.Sleep(time.Duration(late) * time.Millisecond)
+				}
 				for {
 					umu.Lock()
 					if ui >= len(upd) {
